@@ -666,6 +666,21 @@ def oracle_surface(ck, rng):
             gs = pipe.gaussian_smooth(1.5 * scale).convert(img, scale)
             expect(float(gs.min()) >= -1e-6 and float(gs.max()) <= 1 + 1e-6 and np.allclose(gs, pipe.gaussian_smooth(1.5).convert(img, 1.0), atol=1e-6), "gaussian-smooth",
                    "gaussian_smooth leaves [0, 1] or depends on the unit of length", {"scale": scale})
+        # with_scale partialises a converter; composition with something that is not a pipeline and division by zero are rejected
+        volf = rng.normal(size=(6, 7, 8)).astype(np.float32)
+        for scale in (0.5, 2.0):
+            cv = pipe.gaussian_filter(sigma=1.2)
+            expect(np.allclose(cv.with_scale(scale)(volf), cv.convert(volf, scale)) and np.allclose(cv.with_scale(scale)(volf), cv(volf, scale)), "with-scale",
+                   "converter.with_scale(s)(img) differs from converter(img, s)", {"scale": scale})
+            pv = pipe.from_array(volf, original_scale=scale)
+            for name, got, want in (("provider / 4", (pv / 4.0)(scale), volf / 4.0), ("8 / (provider + 10)", (8.0 / (pv + 10.0))(scale), 8.0 / (volf + 10.0)),
+                                    ("converter / 2", (cv / 2.0)(volf, scale), cv(volf, scale) / 2.0), ("3 / (converter + 10)", (3.0 / (cv + 10.0))(volf, scale), 3.0 / (cv(volf, scale) + 10.0)),
+                                    ("provider / provider", (pv / (pv + 10.0))(scale), volf / (volf + 10.0)), ("converter / provider", (cv / (pv + 10.0))(volf, scale), cv(volf, scale) / (volf + 10.0))):
+                expect(np.allclose(got, want, atol=1e-5), "division", f"{name} is not the voxel-wise quotient", {"scale": scale})
+        expect(raises(lambda: pipe.from_array(volf, original_scale=1.0) / 0, ZeroDivisionError) and raises(lambda: pipe.gaussian_filter(sigma=1.0) / 0.0, ZeroDivisionError),
+               "validation", "division of a pipeline by zero accepted", {})
+        expect(raises(lambda: pipe.gaussian_filter(sigma=1.0) @ np.ones((2, 2, 2)), TypeError) and raises(lambda: pipe.gaussian_filter(sigma=1.0).compose(3.0), TypeError),
+               "validation", "composition with a non-pipeline accepted", {})
         expect(raises(lambda: pipe.gaussian_smooth(-1.0).convert(img, 1.0), ValueError), "validation", "negative sigma accepted by gaussian_smooth", {})
         expect(raises(lambda: pipe.gaussian_smooth("x").convert(img, 1.0), ValueError), "validation", "non-numeric sigma accepted by gaussian_smooth", {})
         expect(raises(lambda: pipe.dilation("x").convert(img, 1.0), ValueError), "validation", "non-numeric radius accepted by dilation", {})
